@@ -20,6 +20,7 @@ fn main() {
         "x:/../secret.ttl".into(), "x:/../secret".into(), "x:/sub/../../secret.ttl".into(), "x:/./../secret.ttl".into(),
         format!("x:/{}", abs_secret), format!("x://{}", abs_secret.trim_start_matches('/')),
         "x:/..%2Fsecret.ttl".into(), "x:/in.ttl#../secret.ttl".into(),
+        "x:/%2e%2e/secret.ttl".into(), "x:/%2E%2E%2Fsecret.ttl".into(), "x:/.%2e/secret.ttl".into(), "x:/sub%2f..%2f..%2fsecret.ttl".into(), "x:/%2e%2e/secret".into(),
     ];
     iris.push(format!("x:/sub/{}", abs_secret));
     let mut bad = None;
